@@ -37,7 +37,7 @@ PROBES = ["append_or_insert_into_unterminated_document", "move_all_occurrences_o
           "single_occurrence_moved_past_sibling", "sort_with_duplicates", "insert_into_empty_file",
           "insert_beyond_end", "unindexed_set_replaces_all_occurrences",
           "reorder_in_unterminated_document", "failing_op_leaves_document_unchanged", "gc_step",
-          "handles_dropped_and_refetched"]
+          "handles_dropped_and_refetched", "step_without_observation"]
 
 
 def generate(seed, run, tier):
